@@ -296,7 +296,7 @@ def interpField (tag : U5) (p : List U5) : Except Err Interp :=
       else if ver == 17 then
         if b.length != 20 then .error .invalidPubKeyHashLength else .ok (.known (ver :: bytesToFes b))
       else if ver == 18 then
-        if b.length != 32 then .error .invalidScriptHashLength else .ok (.known (ver :: bytesToFes b))
+        if b.length != 20 then .error .invalidScriptHashLength else .ok (.known (ver :: bytesToFes b))
       else .ok .unknown
   else if tag == 3 then   -- r: private route
     let b := fesToBytes p
@@ -318,6 +318,10 @@ structure Field where
   payload : List U5
   deriving DecidableEq, Repr
 
+def mkField (tag : U5) (p : List U5) : Interp → Field
+  | .known q => ⟨tag, true, q⟩
+  | .unknown => ⟨tag, false, p⟩
+
 def interpFields : List (U5 × List U5) → Except Err (List Field)
   | [] => .ok []
   | (tag, p) :: rest =>
@@ -326,7 +330,27 @@ def interpFields : List (U5 × List U5) → Except Err (List Field)
     | .ok i =>
       match interpFields rest with
       | .error e => .error e
-      | .ok fs => .ok ((match i with | .known q => ⟨tag, true, q⟩ | .unknown => ⟨tag, false, p⟩) :: fs)
+      | .ok fs => .ok (mkField tag p i :: fs)
+
+/-- mirrors de.rs::parse_tagged_parts in its real order: each field is sliced AND interpreted before
+    the next one is looked at (so an interpretation error of an earlier field wins over a framing
+    error of a later one).  When it succeeds it is `splitTagged` followed by `interpFields`
+    (`Ldk.C18.parseTagged_eq_split_interp`).  fuel = input length -/
+def parseTagged : Nat → List U5 → Except Err (List Field)
+  | 0, d => if d.isEmpty then .ok [] else .error .unexpectedEndOfTaggedFields
+  | fuel + 1, d =>
+    match d with
+    | [] => .ok []
+    | tag :: l1 :: l2 :: rest =>
+      let len := l1.toNat * 32 + l2.toNat
+      if rest.length < len then .error .unexpectedEndOfTaggedFields else
+      match interpField tag (rest.take len) with
+      | .error e => .error e
+      | .ok i =>
+        match parseTagged fuel (rest.drop len) with
+        | .error e => .error e
+        | .ok fs => .ok (mkField tag (rest.take len) i :: fs)
+    | _ => .error .unexpectedEndOfTaggedFields
 
 /-- mirrors lib.rs::SignedRawBolt11Invoice -/
 structure SignedRaw where
@@ -378,14 +402,14 @@ def parseSigned (s : Bytes) : Except Err SignedRaw :=
     match parseHrp (hrpBytes.map (fun b => Char.ofNat b.toNat)) with
     | .error e => .error e
     | .ok hrp =>
-      match parseData (data.take (data.length - 104)) with
+      let d := data.take (data.length - 104)
+      if d.length < 7 then .error .tooShortDataPart else
+      match parseTagged d.length (d.drop 7) with
       | .error e => .error e
-      | .ok (ts, raw) =>
-        match interpFields raw with
-        | .error e => .error e
-        | .ok fields =>
-          let sig := data.drop (data.length - 104)
-          if sigOk sig then .ok { hrp, timestamp := ts, fields, sig } else .error .malformedSignature
+      | .ok fields =>
+        let sig := data.drop (data.length - 104)
+        if sigOk sig then .ok { hrp, timestamp := parseIntBe (d.take 7), fields, sig }
+        else .error .malformedSignature
 
 /-- data part without signature as re-serialised -- mirrors ser.rs::Base32Iterable for RawDataPart -/
 def SignedRaw.dataSyms (i : SignedRaw) : List U5 :=
